@@ -294,9 +294,16 @@ func enhancedStatusCode(err error, supported bool) string {
 	if firstrune != 50 && firstrune != 52 && firstrune != 53 {
 		return ""
 	}
-	re, rerr := regexp.Compile(`\b([245])\.\d{1,3}\.\d{1,3}\b`)
+	// the enhanced status code is the first word of the reply text (RFC 2034, section 4), i.e. it
+	// directly follows the three digit reply code and the blank. Anything that looks like a status
+	// code later in the text (an IP address, a version number) is not one.
+	re, rerr := regexp.Compile(`^\d{3} ([245]\.\d{1,3}\.\d{1,3})\b`)
 	if rerr != nil {
 		return ""
 	}
-	return re.FindString(err.Error())
+	match := re.FindStringSubmatch(err.Error())
+	if match == nil {
+		return ""
+	}
+	return match[1]
 }
